@@ -103,3 +103,28 @@ Definition prims_invu (name : string) (args : list pv) : res pv :=
     end
   else prims_inv call_ref numfmt name args.
 End InvU.
+
+(* ---- InventoryRenderer.prepare under expand (render_inv_prepare_expand): prims_invu plus "method:prepare" on an owned
+   PositionRenderer = interpreting the translated PositionRenderer.prepare (without its last statement) and then
+   ColumnRenderer.prepare on its fields under prims_pos; answers the prepared object and the width. *)
+Section InvP.
+Variable call_ref : nat -> list pv -> pv.
+Variable numfmt : list (dec * str) -> dec -> str -> str.
+Variable fresh : pv.
+Notation PP := (prims_pos call_ref numfmt).
+
+Definition prims_invp (name : string) (args : list pv) : res pv :=
+  if String.eqb name "method:prepare" then
+    match args with
+    | [r] =>
+        match posr_flds r with
+        | Some flds => bind (bind (call_method call_ref PP render_position_prepare_head flds [])
+                                  (fun p => call_method call_ref PP render_base_prepare (fst p) []))
+                            (fun p => Ok (PTuple [posr_obj (fst p); snd p]))
+        | None => PP name args
+        end
+    | _ => PP name args
+    end
+  else prims_invu call_ref numfmt fresh name args.
+End InvP.
+
